@@ -77,8 +77,8 @@ theorem basis3_mul (p q : Quat K) (hp : p.magnitude2 = 1) (hq : q.magnitude2 = 1
 
 /-! ## matrix → quaternion returns `q` or `-q`, in each of the four cases -/
 
-/-- value of `M3.toQuat` on the matrix of `q`, given the pivot `a` (one of `w x y z`),
-`s = 2|a|` -/
+/-- for a unit quaternion `q` over ℝ, `M3.toQuat` applied to the matrix of `q` returns `q` or `-q` (which of the two is not
+stated here; the proof goes through the model's four cases with pivot `a` one of `w x y z`, `s = 2|a|`) -/
 theorem toQuat_toM3 (q : Quat ℝ) (hq : q.magnitude2 = 1) :
     q.toM3.toQuat = q ∨ q.toM3.toQuat = -q := by
   have h : q.s * q.s + (q.v.x * q.v.x + (q.v.y * q.v.y + q.v.z * q.v.z)) = 1 := by simpa using hq
